@@ -297,7 +297,7 @@ def decode_impl(body: bytes, neighbor: Neighbor | None = None) -> tuple[str, Any
     """Message.unpack(OPEN) on the real code → ('ok', Open) | ('err c s', None) | ('crash:<Type>', None)."""
     neg = Negotiated.UNSET if neighbor is None else Negotiated.make_negotiated(neighbor, Direction.IN)
     try:
-        o = Message.unpack(1, body, neg)
+        o = Message.unpack(1, memoryview(bytearray(body)), neg)  # writable, as the receive buffer of the real reader is
     except Notify as e:
         return f'err {e.code} {e.subcode}', None
     except Exception as e:  # anything else escaping the decoder
